@@ -10,8 +10,8 @@ TYPES = {
     "int": (["1", "None", "4/2", "Auto"], ["2", "3", "-7", "None", "10", "Auto", "auto"], ["x", "1.5", "inf", '"None"']),
     "int(value_min=0, value_max=9)": (["1"], ["0", "9", "5"], ["-1", "10"]),
     "int(allow_none=False)": (["2"], ["3", "4"], ["None"]),
-    "float": (["1.5", "2", "None"], ["2.5", "1e-3", "-0.25", "3"], ["x"]),
-    "float(value_min=0)": (["0.5"], ["0", "7.25"], ["-1"]),
+    "float": (["1.5", "2", "None", "0.5"], ["2.5", "1e-3", "-0.25", "3", "0.50000000000001", "1.5000000000001"], ["x"]),
+    "float(value_min=0)": (["0.5"], ["0", "7.25", "0.50000000000001"], ["-1"]),
     "bool": (["True", "False", "yes", "None"], ["True", "False", "no", "on", "0"], ["maybe"]),
     "str": (["x", '"a b"', "None", "a b", "Auto"], ["y", '"p q"', "'it'", "None", "a  b", '"None"', '"Auto"', "Auto", "'none'"], []),
     "qstr": (["x", '"a b" c', "None"], ["y", "'p q' r", '"None"', "None"], []),
@@ -31,9 +31,9 @@ TYPES = {
 
 class MasterGen:
     def __init__(self, rng, depth=2, multiples=True, nested_multiples=False, noncanonical=True, disabled=True,
-                 further=True, types=None, deprecated=False, reopen=False):
+                 further=True, types=None, deprecated=False, reopen=None):
         self.deprecated = deprecated
-        self.reopen = reopen
+        self.reopen = (__import__("os").environ.get("VERIF_REOPEN") == "1") if reopen is None else reopen
         self.rng = rng
         self.depth = depth
         self.multiples = multiples
@@ -58,6 +58,9 @@ class MasterGen:
                 "deprecated": self.deprecated and not mult and r.random() < 0.12}
         if mult and self.further and not node["dis"] and r.random() < 0.4:
             node["further"] = [r.choice(TYPES[t][1] or [dv]) for _ in range(r.choice([1, 2]))]
+        if mult and self.disabled and not node["dis"] and r.random() < 0.25:
+            # a commented-out example instance next to the declaration (`!name = value`): inert
+            node["dis_further"] = [r.choice(TYPES[t][1] or [dv])]
         return node
 
     def scope(self, name, depth, in_multiple):
@@ -66,6 +69,8 @@ class MasterGen:
         node = {"k": "s", "name": name, "multiple": mult, "optional": r.choice([None, None, True, False]),
                 "dis": self.disabled and r.random() < 0.05, "expert": r.choice([None, None, 0, 1]),
                 "help": r.choice([None, "scope help"]), "kids": self.objs(depth - 1, in_multiple or mult), "further": []}
+        if mult and self.disabled and not node["dis"] and r.random() < 0.25:
+            node["dis_further"] = True      # `!name { ... }` after the declaration: a commented-out example instance
         if self.reopen and not mult and not node["dis"] and len(node["kids"]) >= 2 and r.random() < 0.5:
             node["reopen"] = r.randint(1, len(node["kids"]) - 1)    # written as two blocks of the same (non-multiple) scope
         return node
@@ -81,6 +86,14 @@ class MasterGen:
                 out.append(self.scope(snames.pop(), depth, in_multiple))
             else:
                 out.append(self.defn(nm, in_multiple))
+        # look-alike names: a sibling parameter spelt <scope name> + one character + <name of a parameter inside that scope>
+        # (`s_a` next to `s { a }`): prefix tests on dotted paths must respect the component boundary
+        for sc in [o for o in out if o["k"] == "s"]:
+            inner = [k["name"] for k in sc["kids"] if k["k"] == "d"]
+            if inner and r.random() < 0.2:
+                nm = sc["name"] + r.choice(["_", "x", "_"]) + r.choice(inner)
+                if nm not in [o["name"] for o in out]:
+                    out.append(self.defn(nm, in_multiple))
         return out
 
     def tree(self):
@@ -112,6 +125,8 @@ def render_master(nodes, indent=""):
             s += "%s%s%s = %s\n" % (indent, bang, n["name"], n["default"]) + attr_lines(n, indent)
             for f in n["further"]:
                 s += "%s%s = %s\n" % (indent, n["name"], f)
+            for f in n.get("dis_further") or []:
+                s += "%s!%s = %s\n" % (indent, n["name"], f)
         else:
             a = attr_lines(n, indent)
             if a:
@@ -126,6 +141,10 @@ def render_master(nodes, indent=""):
             else:
                 s += render_master(n["kids"], indent + "  ")
             s += "%s}\n" % indent
+            if n.get("dis_further"):
+                s += "%s!%s {\n" % (indent, n["name"])
+                s += render_master([k for k in n["kids"] if k["k"] == "d"][:2], indent + "  ")
+                s += "%s}\n" % indent
     return s
 
 
